@@ -64,6 +64,7 @@ type plan struct {
 
 type S struct {
 	mu      sync.Mutex
+	shortTO bool
 	plans   map[int32]*plan
 	order   []*plan
 	filtLog map[int32][]string // request id -> filter names in order of entry (client side)
@@ -228,12 +229,14 @@ func diff(a, b reflect.Value, path string) string {
 	switch a.Kind() {
 	case reflect.Float32:
 		x, y := math.Float32bits(float32(a.Float())), math.Float32bits(float32(b.Float()))
-		if x != y && !(a.Float() == 0 && b.Float() == 0) { // (an optional member at its default 0 is not transmitted: -0 and +0 are one value there)
+		// (an optional struct member at its default 0 is not transmitted: -0 and +0 are one value
+		// there, and only there; parameters, results and container elements keep their sign bit)
+		if x != y && !(structField(path) && a.Float() == 0 && b.Float() == 0) {
 			return fmt.Sprintf("%s: float32 bits %08x vs %08x", path, x, y)
 		}
 	case reflect.Float64:
 		x, y := math.Float64bits(a.Float()), math.Float64bits(b.Float())
-		if x != y && !(a.Float() == 0 && b.Float() == 0) {
+		if x != y && !(structField(path) && a.Float() == 0 && b.Float() == 0) {
 			return fmt.Sprintf("%s: float64 bits %016x vs %016x", path, x, y)
 		}
 	case reflect.Slice, reflect.Array:
@@ -280,6 +283,12 @@ func diff(a, b reflect.Value, path string) string {
 		}
 	}
 	return ""
+}
+
+// structField: the value at path is a member of a struct (its last path step is ".Name").
+func structField(path string) bool {
+	i := strings.LastIndexAny(path, ".[")
+	return i >= 0 && path[i] == '.'
 }
 
 func diffAny(a, b interface{}, path string) string {
@@ -592,7 +601,18 @@ func (s *S) Run(c *scen.Ctx) {
 		qmax = int32(ncallers)
 	}
 	c.Describe("obj_queue_max", qmax)
-	comm := world.NewClient(world.ClientOpts{InvokeTimeoutMs: 30000, IdleTimeout: idle, ObjQueueMax: qmax})
+	// variant "shortto": call time-outs below one second and calls at every phase of the second,
+	// with nothing in the run that takes simulated time (no delivery delays, no stalls): no call
+	// may run into its time-out, on either side
+	invokeTO := 30000
+	s.shortTO = c.Param("shortto", "") == "on"
+	if s.shortTO {
+		invokeTO = []int{300, 450, 700, 900}[simrt.Draw(4, "c01.shortto")]
+		simnet.Cfg.Delay = false
+		c.Count("probe.call_timeouts_below_one_second", 1)
+	}
+	c.Describe("call_timeout_ms", invokeTO)
+	comm := world.NewClient(world.ClientOpts{InvokeTimeoutMs: invokeTO, IdleTimeout: idle, ObjQueueMax: qmax})
 	s.installFilters(c)
 	conf := &transport.TarsServerConf{Proto: "tcp", Address: addr, MaxInvoke: int32(s.pool), QueueCap: 1000,
 		AcceptTimeout: 500 * time.Millisecond, IdleTimeout: 600 * time.Second}
@@ -638,6 +658,9 @@ func (s *S) Run(c *scen.Ctx) {
 				n := nonce
 				s.mu.Unlock()
 				p := s.newPlan(c, n, ci, -1)
+				if s.shortTO {
+					simrt.Sleep(time.Duration(simrt.Draw(1000, "c01.phase")) * time.Millisecond)
+				}
 				s.call(c, prxs[ci%len(prxs)], p)
 			}
 		})
